@@ -1,4 +1,4 @@
 CONSTANTS MaxExt = 3
 SPECIFICATION Spec
-INVARIANTS SoundTraits SoundTranspose SoundFlatten SoundReduce SoundBroadcast SoundJoin
+INVARIANTS SoundTraits SoundTranspose SoundFlatten SoundReduce SoundBroadcast SoundJoin SoundConcat SoundTile SoundTake
 CHECK_DEADLOCK FALSE
